@@ -108,21 +108,33 @@ AllOnCurve(c, S, sub, h, h2, w) == \A pt \in Points(c, S, sub, h, h2, w) : OnCur
 
 \* any >= t shares recover the secret (and, pk = sk in the exponent, the group public key)
 RecoverThm(S) == \A c \in Polys : Interp({<<i, F(c, i)>> : i \in S}) = c[1]
-\* verifies <=> all points on the curve; equal to the direct signature <=> verifies; the honest combination is on
-\* the curve; a substituted one is on the curve for exactly a 1/P fraction of the polynomials
+(* verifies <=> all points on the curve; equal to the direct signature <=> verifies; the honest combination is on the
+   curve; a substituted one is on the curve for exactly a 1/P fraction of the polynomials (never, for a fresh key that
+   differs from the honest one).  Everything is linear in the message hash, so h = 1 and h2 = the RATIO of the two
+   hashes (any element but 0 and 1) lose no generality; the Lagrange coefficients depend on the abscissae only and are
+   tabulated once per case (lam) -- Agg(pts) is Interp(pts) with that table. *)
+RECURSIVE SumL(_, _)
+SumL(pts, lam) == IF pts = {} THEN 0 ELSE LET p == CHOOSE q \in pts : TRUE IN Mod(lam[p[1]] * p[2] + SumL(pts \ {p}, lam))
 CombineThm(S, sub) ==
-  /\ \A c \in Polys : \A h \in Hs : \A h2 \in Hs \ {h} : \A w \in (IF sub.kind = "share" /\ sub.arg = 0 THEN Zp ELSE {0}) :
-       LET agg == Interp(Points(c, S, sub, h, h2, w))
-           on == AllOnCurve(c, S, sub, h, h2, w)
-       IN /\ Verify(c[1], h, agg) <=> on
-          /\ (agg = Mod(c[1] * h)) <=> on
+  LET X == IF sub.kind = "index" THEN (S \ {sub.pos}) \cup {sub.arg} ELSE S
+      Key(x) == IF KeyMode = "id" THEN x ELSE RankIn(X, x)
+      K == {Key(x) : x \in X}
+      lam == [x \in X |-> Lambda(K, Key(x))]
+      fresh == sub.kind = "share" /\ sub.arg = 0
+      H2s == IF sub.kind = "msg" THEN 2..(P - 1) ELSE {2}
+  IN
+  /\ \A c \in Polys : \A h2 \in H2s : \A w \in (IF fresh THEN Zp ELSE {0}) :
+       LET pts == Points(c, S, sub, 1, h2, w)
+           agg == SumL(pts, lam)
+           on == \A pt \in pts : OnCurve(c, pt, 1)
+       IN /\ Verify(c[1], 1, agg) <=> on
+          /\ (agg = c[1]) <=> on
           /\ sub.kind = "none" => on
   /\ sub.kind # "none" =>
-       \A h \in Hs : \A h2 \in Hs \ {h} :
-          LET w0 == 0   \* a fresh key equal to the honest one is no substitution: count the coincidences of the rest
-              co == {c \in Polys : AllOnCurve(c, S, sub, h, h2, IF sub.arg = 0 /\ sub.kind = "share" THEN Mod(F(c, sub.pos) + 1) ELSE w0)}
-          IN IF sub.kind = "share" /\ sub.arg = 0 THEN co = {}
-             ELSE Cardinality(co) * P = Cardinality(Polys)
+       \A h2 \in H2s :
+          \* a fresh key equal to the honest one is no substitution: take one that differs
+          LET co == {c \in Polys : AllOnCurve(c, S, sub, 1, h2, IF fresh THEN Mod(F(c, sub.pos) + 1) ELSE 0)}
+          IN IF fresh THEN co = {} ELSE Cardinality(co) * P = Cardinality(Polys)
 \* the model's relations are the field's, coincidences aside
 Algebra == /\ obs.kind = "recover" => (RecoverThm(obs.S) /\ obs.secretEq /\ obs.pubEq)
            /\ obs.kind = "combine" => /\ CombineThm(obs.S, obs.sub)
